@@ -11,7 +11,7 @@ tie: T  (tables by AST: coefficient lists / dicts, constants; arithmetic and bra
 import os, sys, math, json, re, random, time, warnings
 from concurrent.futures import ThreadPoolExecutor
 import vf
-from props import c15_tables as TB, c15_trace as TR
+from props import c15_tables as TB, c15_trace as TR, c15_oracle as OR
 
 T_SCALARS = ['Pc1', 'Tc1', 'L0', 'L1', 'L2', 'tc_k', 'Tc1_C']
 T_FARRAYS = ['cowat_a', 'cowat_sa']
@@ -115,15 +115,283 @@ def translate(ctx):
     return tt, ti, trs
 
 
+# ---------------------------------------------------------------------------------------------
+# bit-exact correspondence on doubles: the traced DAGs evaluated (a) in Python and (b) inside Coq
+# (PrimFloat, vm_compute) against the real functions
+def fhex(x):
+    x = float(x)
+    if x != x: return 'nan'
+    if x == math.inf: return 'infinity'
+    if x == -math.inf: return 'neg_infinity'
+    return '(%s)' % x.hex()
+
+
+def same_bits(a, b):
+    if a != a or b != b: return a != a and b != b
+    return a == b and math.copysign(1.0, a) == math.copysign(1.0, b)
+
+
+def norm_impl(r):
+    """what the real function returned, in the vocabulary of TR.run_dag; 'skip' = outside the model
+    (Python raised ZeroDivisionError / OverflowError, or produced a complex number)"""
+    if OR.raised(r):
+        return 'skip' if r[1] in ('ZeroDivisionError', 'OverflowError') else ('raise',)
+    if OR.novalue(r): return None
+    items = r if isinstance(r, tuple) else (r,)
+    if any(isinstance(x, complex) for x in items): return 'skip'
+    try: return ('ret', [float(x) for x in items])
+    except Exception: return ('raise',)
+
+
+def same_result(a, b):
+    if a is None or b is None: return a is None and b is None
+    if a[0] != b[0]: return False
+    if a[0] != 'ret': return True
+    return len(a[1]) == len(b[1]) and all(same_bits(x, y) for x, y in zip(a[1], b[1]))
+
+
+def fres(r):
+    if r is None: return 'FNone'
+    if r[0] == 'raise': return 'FRaise'
+    return 'FRet [%s]' % '; '.join(fhex(x) for x in r[1])
+
+
+class SolverPatch:
+    """scipy.optimize.fsolve wrapped for the duration of a real call: the real fsolve is tried
+    first; when it raises the recorded TypeError (finding tsat:fsolve-array-argument) the root
+    is found by brentq on the same residual, so that the rest of tsat / separated_steam_fraction
+    can still be compared with the traced arithmetic.  The result is recorded (hint of `solve`)."""
+    def __init__(self): self.defect = 0; self.last = math.nan
+    def __enter__(self):
+        import scipy.optimize as so
+        self.so, self.orig = so, so.fsolve
+        so.fsolve = self.wrap
+        return self
+    def __exit__(self, *a):
+        self.so.fsolve = self.orig
+    def wrap(self, f, t0, *a, **k):
+        import numpy as np
+        try:
+            r = self.orig(f, t0, *a, **k)
+        except TypeError:
+            self.defect += 1
+            try: r = np.array([self.so.brentq(f, 0.01, 500.0, xtol=1e-13, rtol=1e-15)])
+            except Exception: r = np.array([math.nan])
+        self.last = float(np.asarray(r).ravel()[0])
+        return r
+
+
+def gen_inputs(T, I, ctx, scale):
+    rng = ctx.rng
+    up, dn = OR.up, OR.dn
+    tc = T.Tc1_C
+    cs = {}
+    n = 220 * scale
+    liq = OR.gen_liquid(T, I, rng, n)
+    cs['cowat_off'] = [list(s) for s in liq] + [[rng.uniform(0.01, 400.0), rng.uniform(1e3, 1e8)] for _ in range(40 * scale)]
+    on = [list(s) for s in liq]
+    for _ in range(120 * scale):
+        t = rng.choice([dn(0.01), 0.01, up(0.01), dn(350.0), 350.0, up(350.0), rng.uniform(-2.0, 360.0), rng.uniform(0.01, 350.0)])
+        ps = float(T.sat(min(max(t, 0.01), 500.0)))
+        p = rng.choice([dn(ps), ps, up(ps), dn(1e8), 1e8, up(1e8), ps * (1 + rng.choice([-1, 1]) * 10 ** rng.uniform(-14, -2)), rng.uniform(0.0, 1.02e8)])
+        on.append([t, p])
+    cs['cowat_on'] = on
+    stm = OR.gen_steam(T, I, rng, n)
+    cs['supst_off'] = [list(s) for s in stm] + [[rng.uniform(0.01, 800.0), 10 ** rng.uniform(2, 8)] for _ in range(40 * scale)]
+    on = [list(s) for s in stm]
+    for _ in range(160 * scale):
+        t = rng.choice([dn(0.01), 0.01, dn(tc), tc, up(tc), dn(590.0), 590.0, up(590.0), 800.0, up(800.0), rng.uniform(-2.0, 810.0), rng.uniform(0.01, 800.0), rng.uniform(340.0, 380.0)])
+        tt = min(max(t, 0.01), 800.0)
+        lim = float(T.sat(tt)) if tt <= tc else (float(T.b23p(tt)) if tt <= 590.0 else 1e8)
+        p = rng.choice([dn(lim), lim, up(lim), lim * (1 + rng.choice([-1, 1]) * 10 ** rng.uniform(-14, -2)), -1.0, 1.0, rng.uniform(1.0, 1.02e8)])
+        on.append([t, p])
+    cs['supst_on'] = on
+    ts = [dn(0.01), 0.01, up(0.01), dn(tc), tc, up(tc), dn(500.0), 500.0, up(500.0), 0.0, -1.0, 100.0] + \
+         [rng.uniform(0.01, tc) for _ in range(150 * scale)] + [rng.uniform(-5.0, 510.0) for _ in range(40 * scale)]
+    cs['sat_off'] = [[t] for t in ts]
+    cs['sat_on'] = [[t] for t in ts]
+    plo, phi = float(T.sat(0.01)), T.Pc1
+    ps = [plo, phi, 1e5, 1e6, float(T.sat(100.0)), float(T.sat(tc))] + [math.exp(rng.uniform(math.log(plo), math.log(phi))) for _ in range(100 * scale)]
+    cs['tsat_off'] = [[p] for p in ps]
+    cs['tsat_on'] = [[p] for p in ps + [dn(plo), up(phi), 1.0, 1e9] + [math.exp(rng.uniform(math.log(plo * 0.3), math.log(phi * 3))) for _ in range(40 * scale)]]
+    tb = [350.0, tc, 590.0] + [rng.uniform(340.0, 600.0) for _ in range(60 * scale)]
+    cs['b23p67'] = [[t] for t in tb]
+    cs['b23p97'] = [[t] for t in tb]
+    reg = []
+    for _ in range(300 * scale):
+        r = rng.random()
+        t, p = rng.uniform(-5.0, 810.0), rng.uniform(-1e5, 101e6)
+        if r < 0.3:
+            t = rng.uniform(0.01, tc); c = float(rng.choice([T.sat, I.sat])(min(t, I.tcritical)))
+            p = c * (1 + rng.choice([-1, 1]) * 10 ** rng.uniform(-16, -2))
+        elif r < 0.5:
+            t = rng.uniform(350.0, 590.0); c = float(rng.choice([T.b23p, I.b23p])(t))
+            p = c * (1 + rng.choice([-1, 1]) * 10 ** rng.uniform(-16, -2))
+        elif r < 0.62:
+            t = rng.choice([0.01, 350.0, tc, 590.0, 800.0]); t = rng.choice([t, dn(t), up(t)])
+        elif r < 0.68: p = rng.choice([0.0, 100e6, dn(100e6), up(100e6), -0.0])
+        reg.append([t, p])
+    for t in (10.0, 200.0, 350.0, 360.0, tc):
+        reg.append([t, float(T.sat(t))])
+    for t in (350.0, 360.0, 400.0, 500.0, 589.0):
+        reg.append([t, float(T.b23p(t))]); reg.append([t, float(I.b23p(t))])
+    cs['region67'] = reg
+    cs['region97'] = reg
+    cs['sat97'] = [[t] for t in [0.0, 0.01, I.tcritical, up(I.tcritical), dn(0.0), 100.0] + [rng.uniform(0.0, I.tcritical) for _ in range(100 * scale)] + [rng.uniform(-5.0, 400.0) for _ in range(20)]]
+    s1, s2 = [], []
+    for _ in range(120 * scale):
+        h = rng.choice([0.0, 3.5e6, rng.uniform(0.0, 3.5e6), rng.uniform(2e5, 1.4e6), rng.uniform(2.6e6, 2.9e6)])
+        s1.append([h, rng.choice([0.1e6, 5e6, rng.uniform(0.1e6, 5e6)])])
+        s2.append([h, rng.choice([0.1e6, 5e6, rng.uniform(0.1e6, 5e6)]), rng.choice([0.1e6, 5e6, rng.uniform(0.1e6, 5e6)])])
+    cs['ssf1'], cs['ssf2'] = s1, s2
+    return cs
+
+
+CASE_HDR = ('From Coq Require Import ZArith QArith List PrimFloat.\nFrom P Require Import Expr.\n'
+            'From Gen Require Import GenThermo GenTraced.\nImport ListNotations.\nClose Scope Q_scope.\nOpen Scope Z_scope.\n')
+
+
+def correspond(ctx, trs, scale):
+    """(a) Python evaluation of each traced DAG (same node order, IEEE doubles, libm exp/pow, real
+    callees for the abstract calls) against the real function, bit for bit; (b) the same cases, with
+    the libm / callee results as hints, evaluated by vm_compute on PrimFloat inside Coq."""
+    import t2thermo as T, IAPWS97 as I
+    import numpy as np
+    mods = {'t': T, 'i': I}
+    inputs = gen_inputs(T, I, ctx, scale)
+    cdir = os.path.join(ctx.build, 'Cases')
+    os.makedirs(cdir, exist_ok=True)
+    files = []
+    nfile = 0
+    nskip = {}
+    defect_calls = 0
+    for name, m, fn, na, extra, ab in TRACES:
+        M = mods[m]
+        tr = trs[name]
+        coefs = []
+        for a, _n in tr.coef_arrays:
+            a0 = a[4:] if a.startswith('i97_') else a
+            v = getattr(M, a0)
+            coefs += [float(x) for x in (v.values() if isinstance(v, dict) else v)]
+        cname_py = 'python-eval(traced %s)-vs-%s.%s%s' % (name, M.__name__, fn, repr(tuple(extra)) if extra else '')
+        cname_coq = 'evalF(traced %s)-vs-%s.%s%s' % (name, M.__name__, fn, repr(tuple(extra)) if extra else '')
+        items, meta = [], {}
+        for cid, args in enumerate(inputs[name]):
+            tsat_rec = {}
+            with SolverPatch() as sp:
+                if 'tsat' in ab:
+                    orig = M.tsat
+                    def rec(p, *a, _o=orig):
+                        r = _o(p, *a); tsat_rec[float(p)] = r; return r
+                    M.tsat = rec
+                try:
+                    real = OR.call(getattr(M, fn), *(list(args) + list(extra)))
+                finally:
+                    if 'tsat' in ab: M.tsat = orig
+                defect_calls += sp.defect
+
+                def callee(cn, out, av):
+                    if cn == 'solve': return sp.last
+                    if cn == 'tsat': r = tsat_rec.get(float(av[0]), math.nan)
+                    elif cn in ('cowat', 'supst'):
+                        r = OR.call(getattr(M, cn), *av)
+                        r = r[out] if OR.ispair(r) else math.nan
+                    else: r = OR.call(getattr(M, cn), *av)
+                    return float(r) if OR.isnum(r) else math.nan
+                want = norm_impl(real)
+                if want == 'skip':
+                    nskip[name] = nskip.get(name, 0) + 1
+                    continue
+                got, hints, probes = TR.run_dag(tr, args, coefs, callee)
+            if got is not None and got[0] == 'nopath': got = ('nopath',)
+            if not same_result(got, want):
+                ctx.disagreement(cname_py, {'fn': name, 'args': args}, repr(got), repr(real))
+            meta[cid] = (name, args, repr(real))
+            n = len(tr.nodes)
+            items.append('{| k_id := %d; k_args := [%s]%%float; k_hints := [%s]%%float; k_probes := [%s]; k_res := %s%%float |}' % (
+                cid, '; '.join(fhex(a) for a in args), '; '.join(fhex(h if h is not None else math.nan) for h in hints),
+                '; '.join('(%d%%nat, %s%%float)' % (n - 1 - k, fhex(v)) for k, v in probes), fres(want)))
+        ctx.corr_cases(cname_py, len(meta))
+        for off in range(0, len(items), CASES_PER_FILE):
+            nfile += 1
+            p = os.path.join(cdir, 'Case%03d_%s.v' % (nfile, name))
+            with open(p, 'w') as f:
+                f.write(CASE_HDR + 'Definition cases : list fcase := [\n  %s].\n' % ';\n  '.join(items[off:off + CASES_PER_FILE]))
+                f.write('Eval vm_compute in (bad_casesF %s_traced %s_coefs_F cases).\n' % (name, name))
+            files.append((p, cname_coq, meta, len(items[off:off + CASES_PER_FILE])))
+    ctx.extra['correspondence_inputs_outside_the_model'] = nskip
+    ctx.extra['real_calls_in_which_fsolve_raised_the_known_TypeError'] = defect_calls
+
+    def one(item):
+        p = item[0]
+        rc, out = vf.sh(['timeout', '600', 'coqc'] + ctx.coq_flags() + ['-Q', cdir, 'Cases', p], cwd=ctx.build, timeout=630)
+        return item, rc, out
+    with ThreadPoolExecutor(max_workers=min(8, vf.NPROC)) as ex:
+        results = list(ex.map(one, files))
+    ctx.checker_cmds.append('coqc Cases/Case*.v (%d files, Eval vm_compute of the generated DAGs on doubles, compared bit for bit inside Coq)' % len(files))
+    for (p, cname, meta, ncase), rc, out in results:
+        ctx.corr_cases(cname, ncase)
+        mm = re.search(r'=\s*(\[[^\]]*\]|nil)\s*:\s*list Z', out, re.S)
+        if rc != 0 or not mm:
+            ctx.proof_failures.append({'kind': 'correspondence', 'name': cname, 'detail': 'case file %s did not evaluate: %s' % (os.path.basename(p), out[-1500:])})
+            ctx.log('CASE FILE FAILED', os.path.basename(p), out[-400:])
+            continue
+        for cid in [int(x) for x in re.findall(r'-?\d+', mm.group(1))]:
+            fn, args, impl = meta[cid]
+            ctx.disagreement(cname, {'fn': fn, 'args': args}, 'model (PrimFloat evaluation of the traced DAG, or one of its probed arguments) differs in at least one bit', impl)
+
+
 def run(ctx):
     warnings.simplefilter('ignore')
+    ctx.rule = ('states: liquid 0.01..350 degC from the saturation pressure to 100 MPa, steam 0.01..800 degC below saturation / B23 / 100 MPa '
+                '(log- and linearly distributed pressures, 15-25 % on or within 1e-3 relative of a range edge), the saturation line on a uniform grid '
+                'incl. both end points and their neighbouring doubles + random; range limits: every limit (0.01, 350, Tc1_C, 590, 800 degC, 500 degC of sat, '
+                'saturation / B23 pressure, 0 and 100 MPa, sat(0.01) and Pc1 for tsat) probed at the limit and at the neighbouring doubles on both sides, '
+                'range checking on and off; classifier: random states, half straddling both modules\' curves at relative distance 1e-6..1e-1; steam fraction: '
+                '29 sorted enthalpies in 0..3.5 MJ/kg per separator setting, pressures 0.1..5 MPa incl. both ends, 1 and 2 stages in both pressure orders; '
+                'a case is distinct by (clause, state); every state is a valid thermodynamic state or a point next to a range limit')
+    ctx.trusted += ['Coq 8.16.1 kernel (coqc); vm_compute for PrimFloat evaluation and finite obligations over regenerated tables; no native_compute',
+                    'translators tools/props/c15_tables.py (module AST -> Coq data, fail-closed) and tools/props/c15_trace.py (symbolic execution of the real functions -> '
+                    'expression DAG + every branch outcome; cross-checked against the comparisons in the AST), the latter validated on this run bit for bit against the real functions',
+                    "the kernel's primitive floats agree with IEEE-754 binary64 + - * / sqrt and comparisons, as CPython doubles do; libm exp / pow results enter the bit-exact evaluation as hints",
+                    'Python oracle c15_oracle.py: 5-point finite differences, tolerances of the IFC-67 / IAPWS-97 comparison fixed at about twice the measured maximum']
+    ctx.assumptions += ['theorems over R are about exact real arithmetic; the gap to the double computation is measured (bit-exact evalF validates the translation, not the rounding error)',
+                        'scipy.optimize.fsolve is not modelled: `solve` is an arbitrary function meeting solve_root (returns a root of sat(t) - p inside 0.01..Tc1_C); the oracle tests that specification on the real tsat',
+                        'the functions called inside range tests (sat, b23p) and inside separated_steam_fraction (tsat, cowat, supst) are abstract in the theorems about the callers',
+                        'Python exceptions of float arithmetic (ZeroDivisionError at p = 0 in supst, OverflowError) are not modelled: such inputs are excluded from the correspondence and counted']
     ctx.stage()
+    scale = 5 if ctx.thorough else 1
     tt = translate(ctx)
-    ok = False
     if tt is not None:
-        ok = ctx.coq_build(props=('Props.v',), timeout=1500 if ctx.thorough else 600)
-    return ctx.finish()
+        ctx.coq_build(props=('Props.v', 'Props2.v'), timeout=1500 if ctx.thorough else 600)
+        try:
+            correspond(ctx, tt[2], scale)
+        except Exception as e:
+            import traceback; traceback.print_exc()
+            ctx.proof_failures.append({'kind': 'correspondence', 'name': 'correspondence-run', 'detail': repr(e)})
+            ctx.log('correspondence crashed', repr(e))
+    import t2thermo as T, IAPWS97 as I
+    OR.sweep(T, I, ctx, scale)
+    for k, v in ctx.oracle.items():
+        for kk, vv in list(v.get('distribution', {}).items()):
+            if not isinstance(vv, (dict, str, int)): v['distribution'][kk] = float(vv)
+    ctx.extra['input_distribution'] = {k: dict(v.get('distribution', {}), cases=v['cases']) for k, v in ctx.oracle.items()}
+    for rec in ctx.new_failures[:3] + list(ctx.findings_seen.values())[:2]: ctx.sample({'key': rec['key'], 'input': rec['input']})
+    ctx.sample({'clause': 'ifc67-vs-iapws97:liquid', 't': 20.0, 'p': 1e5, 'cowat67': repr(T.cowat(20.0, 1e5)), 'cowat97': repr(tuple(float(x) for x in I.cowat(20.0, 1e5)))})
+    ctx.sample({'clause': 'bounds-flag', 'call': 'cowat(350, 1e8, True) / cowat(nextafter(350), 1e8, True)', 'result': repr((T.cowat(350.0, 1e8, True), T.cowat(OR.up(350.0), 1e8, True)))})
+
+    def deep(broken):
+        ctx.log('deep search: %s' % [b['name'] for b in broken][:5])
+        ctx.rng = random.Random(ctx.seed + 1515)
+        OR.sweep(T, I, ctx, 8 if ctx.thorough else 3)
+    return ctx.finish(deep_search=deep)
 
 
 def replay(ctx, data):
-    return True
+    warnings.simplefilter('ignore')
+    import t2thermo as T, IAPWS97 as I
+    inp = data.get('input')
+    if not inp:
+        print('replay: no concrete input recorded (a theorem / correspondence no longer checks); re-run ./check C15')
+        return True
+    return OR.replay_one(T, I, data.get('finding_key', ''), inp)
